@@ -149,7 +149,8 @@ class SDVRPEnv(CVRPEnv):
         a_prev = None
         for a in actions.transpose(0, 1):
             assert (
-                a_prev is None or (demands[((a_prev == 0) & (a == 0)), :] == 0).all()
+                a_prev is None
+                or (demands[((a_prev == 0) & (a == 0)), 1:].abs() <= 1e-5).all()
             ), "Cannot visit depot twice if any nonzero demand"
             d = torch.min(demands[rng, a], td["vehicle_capacity"].squeeze(-1) - used_cap)
             demands[rng, a] -= d
